@@ -65,9 +65,11 @@ def check(k, seed):
     for key_, val_ in stale.items():
         dynamic.AMPYCLOUD_PRMS[key_] = val_
     _apply_global(P, dynamic.AMPYCLOUD_PRMS)
-    b = run_quiet(df)
-    if digest_chunk(b) != dig_a:
-        fails.append('global-edit route differs from per-call route')
+    try:
+        if digest_chunk(run_quiet(df)) != dig_a:
+            fails.append('global-edit route differs from per-call route')
+    except Exception as e:
+        fails.append(f'global-edit route raises {type(e).__name__}: {str(e)[:60]} (the per-call route runs)')
     ampycloud.reset_prms()
     # route C: YAML file through set_prms
     known = copy.deepcopy(P)
@@ -83,9 +85,11 @@ def check(k, seed):
         with warnings.catch_warnings():
             warnings.simplefilter('ignore')
             ampycloud.set_prms(pth)
-    c = run_quiet(df)
-    if digest_chunk(c) != dig_a:
-        fails.append('YAML route differs from per-call route')
+    try:
+        if digest_chunk(run_quiet(df)) != dig_a:
+            fails.append('YAML route differs from per-call route')
+    except Exception as e:
+        fails.append(f'YAML route raises {type(e).__name__}: {str(e)[:60]} (the per-call route runs)')
     ampycloud.reset_prms()
     # poisoned global: every leaf given per call, global holds other values
     Q = nested_prms(k + 1000, seed + 1)
@@ -97,9 +101,11 @@ def check(k, seed):
     mpl = dynamic.AMPYCLOUD_PRMS['MPL_STYLE']
     full = copy.deepcopy(a.prms)
     full['MPL_STYLE'] = mpl
-    d = run_quiet(df, prms=full)
-    if digest_chunk(d) != dig_a:
-        fails.append('per-call run with every key given is affected by the global values (a step reads the live global)')
+    try:
+        if digest_chunk(run_quiet(df, prms=full)) != dig_a:
+            fails.append('per-call run with every key given is affected by the global values (a step reads the live global)')
+    except Exception as e:
+        fails.append(f'per-call run with every key given raises {type(e).__name__}: {str(e)[:60]}')
     # reset restores the packaged defaults even after nested in-place edits
     dynamic.AMPYCLOUD_PRMS['SLICING_PRMS']['height_scale_kwargs']['min_range'] = 1
     dynamic.AMPYCLOUD_PRMS['MIN_SEP_VALS'].append(5)
